@@ -15,16 +15,11 @@ CONSTANTS
   Phases <- Ph12
   Mtu = 1400
   Dts <- Dt1
-  MaxFails = 0
-  D = 0
+  MaxFails = 1
+  D = 100
   SlowFrom = "r3"
   SlowTo = "r2"
-SPECIFICATION Spec
-VIEW viewE
-INVARIANT TypeOK
-INVARIANT MetricsBounded
-INVARIANT NeverTooGood
-INVARIANT NextHopIsNeighbour
-INVARIANT OwnRouteStays
-PROPERTY Convergence
+INIT Init
+NEXT Next
+INVARIANT Export
 CHECK_DEADLOCK FALSE
